@@ -365,18 +365,6 @@ def run(tier):
             rep.check(e == ("param", 3), "loader-span", "on_event:with_span#%d" % nws, "a loaded node does not get the span of the event that created it",
                       site=site(oe, t["sp"]), detail=cfg.expr_str(e))
     rep.floor("with_span calls in on_event", nws, 4)
-    # every from_bare_yaml result in on_event goes through with_span
-    nfb = 0
-    for bb, t, ck, fr in oe.calls():
-        if ck == "saphyr::loader::LoadableYamlNode::from_bare_yaml":
-            nfb += 1
-            d = t["dest"]["l"]
-            used = False
-            for b2, t2, ck2, fr2 in oe.calls():
-                if ck2 == "saphyr::loader::LoadableYamlNode::with_span" and cfg.resolve_copy_chain(oe, is_local(t2["args"][0]) if is_local(t2["args"][0]) is not None else -1) == d:
-                    used = True
-            rep.check(used, "loader-span", "on_event:from_bare_yaml#%d" % nfb, "a node built in on_event is placed without with_span(span)",
-                      site=site(oe, t["sp"]))
     # every node handed on (to insert_new_node, or pushed on the stack of open collections) is, on every path, the direct result of
     # with_span(<node>, <span of this event>) - a node taken from the anchor table (alias) included
     nplaced = 0
